@@ -115,20 +115,8 @@ def cli_test_mode(run, failures):
         shutil.rmtree(tmp, ignore_errors=True)
 
 
-def foreign_translator_checks_to_notes(run):
-    """C19/C20 use no regenerated table (their Coq files import nothing from Gen/): a failing
-    self-check of another property's translator plug-in is recorded, not judged here."""
-    kept = []
-    for n, ok, d in run.obligations:
-        if n.startswith("translator."):
-            run.notes.append(f"{n} (table not used by this property): {d[:160]}")
-        else:
-            kept.append((n, ok, d))
-    run.obligations = kept
-
-
 def check(run, terrs):
-    foreign_translator_checks_to_notes(run)
+    stale = F.source_tie_obligations(run, terrs)
     proofs_ok, detail = core.check_property_file(run, "C20")
     # the C20 theorems live partly in C19's files
     ok19, log19 = core.coq_make(core.coq_targets_for(["C19"]))
@@ -171,8 +159,9 @@ def check(run, terrs):
                                 "diagnostic" if "diag" in f else "panic"})
     run.trusted = TRUSTED
     run.assumptions = ASSUMPTIONS
-    return core.conclude(run, proofs_ok and ok19, detail, failures, [], level="proof", rule=RULE,
-                         explanation=EXPLANATION)
+    return core.conclude(run, proofs_ok and ok19, detail, failures, [],
+                         search=lambda: F.source_tie_search(run, binary, stale, "C20"),
+                         level="proof", rule=RULE, explanation=EXPLANATION)
 
 
 def replay(run, data):
@@ -203,6 +192,8 @@ TRUSTED = ["Coq 8.16.1 kernel incl. vm_compute (no native_compute)",
            "no axioms (all C20 theorems closed under the global context)",
            "jrharness fmt (format + diagnostic building/rendering under catch_unwind), vlib generators",
            "modelled not verified: dprint-core, rowan parser error recovery (marker.rs), hi-doc rendering"]
-ASSUMPTIONS = ["comments.rs / children.rs transliterated by hand; tied by C19's side-by-side run",
+ASSUMPTIONS = ["children.rs translated statement by statement into Gen/GenFmt.v on every run and proved equal to the "
+               "model (C20_model_is_translated_source_children); comments.rs transliterated by hand, tied by C19's "
+               "side-by-side run",
                "the harness is a debug build (overflow checks and dprint-core's debug assertions on), like "
                "`cargo build` of jrsonnet-fmt; release builds skip dprint's tab/newline assertions"]
